@@ -102,6 +102,7 @@ type c15out struct {
 	SpecProductions         int
 	ShippedStates           int
 	Capped                  bool
+	ContinuedAfterError     int
 }
 
 func init() {
@@ -114,6 +115,10 @@ func init() {
 		full := 4
 		if len(args) > 3 {
 			full, _ = strconv.Atoi(args[3])
+		}
+		after := 2 // tokens explored after an offending token at which the parser asked for more input
+		if len(args) > 4 {
+			after, _ = strconv.Atoi(args[4])
 		}
 		specText, err := os.ReadFile(args[1])
 		if err != nil {
@@ -189,6 +194,7 @@ func init() {
 		e := c.NewEarley()
 		traces := map[string]bool{}
 		var seq []string
+		asked := 0 // number of tokens the parser requested from the scanner in the last run
 		run := func() (accepted bool, reds []int, pan string) {
 			sc := &c15scanner{}
 			for _, t := range seq {
@@ -201,6 +207,7 @@ func init() {
 					pan = fmt.Sprint(r)
 				}
 				reds = log
+				asked = sc.i
 			}()
 			p := parser.NewParser(parser.ActionTable, parser.GotoTable, prods, token.FRONTENDTokens)
 			_, err := p.Parse(sc)
@@ -251,12 +258,18 @@ func init() {
 			}
 		}
 		check(true)
-		// viable prefixes are followed up to length n; once the chart is dead (the sequence cannot be completed to a
-		// sentence) every continuation is still explored up to total length full: the parser must keep rejecting,
-		// whatever follows the offending token
-		var walk func(alive bool)
-		walk = func(alive bool) {
-			if out.Capped || (alive && len(seq) >= n) || (!alive && len(seq) >= full) {
+		// viable prefixes are followed up to length n. Once the chart is dead (the sequence cannot be completed to a
+		// sentence) continuations are explored only if the parser ASKED for more input after the offending token (a
+		// parser that returned without requesting token k+1 cannot depend on it: exact pruning), and then for `after`
+		// further tokens (within length n);
+		// independently of that argument every sequence up to length full is explored
+		var walk func(alive bool, deadAt int)
+		walk = func(alive bool, deadAt int) {
+			// deadAt: length of the sequence when the chart died and the parser asked for more input (0 = not applicable)
+			if out.Capped || len(seq) >= n {
+				return
+			}
+			if !alive && len(seq) >= full && (deadAt == 0 || len(seq)-deadAt >= after) {
 				return
 			}
 			for _, t := range terms {
@@ -270,15 +283,23 @@ func init() {
 					out.NonViableProbes++
 				}
 				check(a)
+				d := deadAt
+				if alive && !a {
+					d = 0
+					if asked > len(seq) {
+						d = len(seq)
+						out.ContinuedAfterError++
+					}
+				}
 				if a && len(seq) > out.MaxLen {
 					out.MaxLen = len(seq)
 				}
-				walk(a)
+				walk(a, d)
 				e.Pop()
 				seq = seq[:len(seq)-1]
 			}
 		}
-		walk(true)
+		walk(true, 0)
 		out.DistinctReductionTraces = len(traces)
 		b, _ := json.Marshal(out)
 		fmt.Println(string(b))
